@@ -65,6 +65,11 @@ func init() {
 					Cfg: vsched.Config{Race: true}, Body: func() { recvVsReconf(k) }})
 			}
 		}
+		for _, n := range []string{"push", "xpush", "req", "xreq"} {
+			k := kinds.ByName(n)
+			out = append(out, &vexplore.Scenario{Name: "fail-no-peers-send-vs-peers-coming-and-going:" + n, Mode: "sched", Bound: b, Reset: kit.ResetGlobals,
+				Cfg: vsched.Config{Race: true}, Body: func() { sendVsPeersLeaving(k) }})
+		}
 		out = append(out, &vexplore.Scenario{Name: "fan-out-concurrent-release", Mode: "sched", Bound: b, Reset: kit.ResetGlobals,
 			Cfg: vsched.Config{Race: true, AtomicPoints: true}, Body: fanoutRelease})
 		out = append(out, &vexplore.Scenario{Name: "two-threads-on-listener-and-dialer", Mode: "sched", Bound: b, Reset: kit.ResetGlobals,
@@ -190,6 +195,47 @@ func recvVsReconf(k *kinds.Kind) {
 		kit.Failf("recv-stuck-after:"+k.Name+":"+r.name, "%s: a Recv was waiting, %s returned %s, then the peer sent a message: Recv done=%v %s %q", k.Name, r.name, kit.ErrName(bc.Err), rc.Done(), kit.ErrName(rc.Err), rc.Val)
 	}
 	kit.Observe("%s %s %s", k.Name, r.name, kit.ErrName(bc.Err))
+	kit.Must("Close", func() { _ = x.S.Close() })
+}
+
+// sendVsPeersLeaving: FailNoPeers is set; one thread sends three messages while the only peer
+// leaves, another connects, leaves too, and a third connects.  Nothing crashes, every Send returns
+// nil or ErrNoPeers, and with the third peer connected (and taking everything) a Send succeeds.
+func sendVsPeersLeaving(k *kinds.Kind) {
+	x := k.Open("c11n", true, false)
+	x.Quiet()
+	if err := x.S.SetOption(mangos.OptionFailNoPeers, true); err != nil {
+		return
+	}
+	var errs []error
+	sc := kit.Start("Sender", func() (interface{}, error) {
+		for i := 0; i < 3; i++ {
+			errs = append(errs, x.Send(fmt.Sprintf("m%d", i)))
+		}
+		return nil, nil
+	})
+	x.P.DropNow()
+	kit.Quiesce()
+	x.P = x.EP.Connect()
+	kit.Quiesce()
+	x.P.DropNow()
+	kit.Quiesce()
+	x.P = x.EP.Connect()
+	kit.Quiesce()
+	if !sc.Done() {
+		kit.Failf("call-never-returns:"+k.Name+":Send", "%s with FailNoPeers: the sender is stuck after %d Send(s) although a peer is connected and takes everything", k.Name, len(errs))
+	}
+	for i, e := range errs {
+		if e != nil && e != mangos.ErrNoPeers {
+			kit.Failf("call-unexpected-error:"+k.Name+":Send", "%s with FailNoPeers: Send %d returned %s", k.Name, i, kit.ErrName(e))
+		}
+	}
+	c := kit.Start("Send", func() (interface{}, error) { return nil, x.Send("with-the-third-peer") })
+	kit.Quiesce()
+	if !c.Done() || c.Err != nil {
+		kit.Failf("nopeers-with-a-peer-connected:"+k.Name, "%s with FailNoPeers: two peers have come and gone, a third is connected and takes everything: Send done=%v %s", k.Name, c.Done(), kit.ErrName(c.Err))
+	}
+	kit.Observe("%s %v", k.Name, errs)
 	kit.Must("Close", func() { _ = x.S.Close() })
 }
 
